@@ -59,6 +59,10 @@ class Models:
             return m(ip, *args, **kwargs)
         if isinstance(f, types.BuiltinMethodType) and f.__self__ is not None and not isinstance(f.__self__, types.ModuleType):
             slf = f.__self__
+            if f.__name__ in ('append', 'extend', 'insert', 'update', 'setdefault', 'add', 'pop', 'popitem', 'clear', 'remove', 'discard',
+                              'appendleft', 'popleft', 'sort', 'reverse', '__setitem__', '__delitem__') and isinstance(slf, (dict, list, set, collections.deque)):
+                from .interp import module_state_guard
+                module_state_guard(slf, f.__name__ + '()')
             cm = self.container_method(slf, f.__name__)
             if cm is not None:
                 return cm(ip, slf, *args, **kwargs)
